@@ -1449,7 +1449,7 @@ fn main() {
         }
     }
     // A3: random combinations (to Coq: a bounded number; oracle only: the rest)
-    let n_coq = if thorough { 22000 } else { 500 };
+    let n_coq = if thorough { 12000 } else { 300 };
     let n_oracle = if thorough { 150000 } else { 12000 };
     for k in 0..(n_coq + n_oracle) {
         run.to_coq = k < n_coq;
@@ -1488,7 +1488,7 @@ fn main() {
 
     // ---- C. token / instruction spans: corpus, decorated corpus, generated
     let corpus = corpus::corpus_templates();
-    let corpus_budget = if thorough { corpus.len() } else { 160 };
+    let corpus_budget = if thorough { corpus.len() } else { 110 };
     let step = (corpus.len() / corpus_budget.max(1)).max(1);
     for (i, (label, src)) in corpus.iter().enumerate() {
         if src.len() > 1500 {
@@ -1502,7 +1502,7 @@ fn main() {
             run.push_source_spans(&format!("{label}+decorated"), &d);
         }
     }
-    let n_lex = if thorough { 14000 } else { 450 };
+    let n_lex = if thorough { 8000 } else { 320 };
     for k in 0..n_lex {
         let s = lex_source(&mut rng);
         run.push_source_spans(&format!("lexgen#{k}"), &s);
@@ -1519,7 +1519,7 @@ fn main() {
             run.corpus_set(label, &[("t.html".to_string(), src.clone())], &ctx);
         }
     }
-    let n_tpl = if thorough { 5000 } else { 250 };
+    let n_tpl = if thorough { 3000 } else { 160 };
     for k in 0..n_tpl {
         let t = gen_tpl::template(&mut rng, 1 + (k % 3) as u32);
         let d = decorate(&mut rng, &t);
